@@ -69,8 +69,8 @@ def gen_cases(tier, seed):
             indexes = [("none", None)] + [("known:%s" % i, str(i)) for b, l, i, d in own["acs"]] + [("unknown", "99"), ("garbage", "abc"), ("negative", "-1")]
             bindings = [("none", None), ("post", POST), ("redirect", REDIR), ("artifact", ART), ("soap", SOAP), ("paos", PAOS)]
             for (uk, url), (ik, idx), (bk, pb) in itertools.product(urls, indexes, bindings):
-                if url is not None and idx is not None:
-                    continue     # mutually exclusive in the schema
+                if url is not None and idx is not None and not (uk in ("unregistered", "near-miss:trailing-slash", "registered:1", "other-sp:1") and bk in ("none", "post")):
+                    continue     # mutually exclusive in the schema - but nothing refuses the pair on the way in, so a few combinations are kept
                 if tier == "quick" and uk.startswith("near-miss") and bk not in ("none", "post"):
                     continue
                 cid = "%s-authn-%s-u:%s-i:%s-b:%s" % (lname, issuer.split("//")[1].split(".")[0], uk, ik, bk)
